@@ -1879,3 +1879,159 @@ func ruleNilnessAgrees(c *Ctx, rule string) {
 			"the hasher writes something else for a nil "+k.name+" than for an empty one, but the equality function does not compare nilness for that kind: a nil and an empty "+k.name+" are equal for enum and const and hash differently, so uniqueItems never compares them")
 	}
 }
+
+func init() {
+	p := Properties["C08"]
+	p.Rules = append(p.Rules,
+		Rule{"C08/zero-means-missing-only-for-structs", ruleC08ZeroMissing},
+		Rule{"C08/instance-facts-unconditional", ruleC08InstanceFacts})
+}
+
+// "An optional property with the zero value counts as missing" is a rule for Go struct instances (a struct field
+// always exists). For a map instance the entry is there because the document has it: {"count":0} in a
+// map[string]int is the same JSON document as in a map[string]any. So a test of IsZero on a property value may
+// influence the evaluator only where the instance is a struct.
+func ruleC08ZeroMissing(c *Ctx) {
+	const rule = "C08/zero-means-missing-only-for-structs"
+	m := c.EvalModel(rule)
+	if m == nil {
+		return
+	}
+	kf := m.instanceKindFlow(c, m.E)
+	isSame := func(v ssa.Value) bool { return m.instLoc(c, v, map[ssa.Value]bool{}) == "same" }
+	n := 0
+	c.eachFamOwn(m.E, func(i ssa.Instruction) {
+		call, ok := i.(*ssa.Call)
+		if !ok || core.CalleeKey(&call.Call) != "reflect.Value.IsZero" || isSame(call.Call.Args[0]) {
+			return
+		}
+		// only property values of the instance (values reached from it), not schema fields
+		derived := false
+		for _, x := range backSlice(call.Call.Args[0], 30) {
+			if isSame(x) {
+				derived = true
+			}
+			if p, isP := x.(*ssa.Parameter); isP && isRangeFuncBody(p.Parent()) {
+				if at := rangeFuncCall(p.Parent()); at != nil {
+					if rc, ok := at.(ssa.CallInstruction); ok {
+						for _, y := range backSlice(rc.Common().Value, 30) {
+							if isSame(y) {
+								derived = true
+							}
+						}
+					}
+				}
+			}
+		}
+		if !derived {
+			return
+		}
+		n++
+		ks := kf.At(call)
+		c.R.Check(ks.SubsetOf(Kinds(kStruct)), rule, fmt.Sprintf("%s:IsZero#%d", core.FuncName(call.Parent()), n), c.pos(call), "the zero test of a property value is made for struct instances only",
+			fmt.Sprintf("a property value is tested for being the zero value while the instance can have kind %s: for a typed map (map[string]int) the entry {\"count\":0} is then treated as missing - its subschema is skipped and it is not marked evaluated - although the same document in a map[string]any is validated", ks))
+	})
+	if n == 0 {
+		c.R.OK(rule, "none", c.P.Pos(m.E.Pos()), "the evaluator does not test property values for being zero")
+	}
+}
+
+// What the evaluator finds out about the instance (is it a number, what is its length ...) must not depend on
+// which keywords the schema happens to have. A boolean that is the result of a test of the instance on one path
+// and a constant on the other, where the path is chosen by the presence of keywords, and that guards another
+// keyword group, makes that group's verdict depend on unrelated keywords and on the Go representation.
+func ruleC08InstanceFacts(c *Ctx) {
+	const rule = "C08/instance-facts-unconditional"
+	m := c.EvalModel(rule)
+	if m == nil {
+		return
+	}
+	isSame := func(v ssa.Value) bool { return m.instLoc(c, v, map[ssa.Value]bool{}) == "same" }
+	fromInstance := func(v ssa.Value) bool {
+		for _, x := range backSlice(v, 30) {
+			if call, ok := x.(*ssa.Call); ok {
+				for _, a := range call.Call.Args {
+					if isSame(a) {
+						return true
+					}
+				}
+			}
+		}
+		return false
+	}
+	readsSchema := func(v ssa.Value) bool {
+		for _, x := range backSlice(v, 30) {
+			if fa, ok := x.(*ssa.FieldAddr); ok && c.fieldOwner(fa) == "Schema" {
+				return true
+			}
+		}
+		return false
+	}
+	n := 0
+	c.eachFamOwn(m.E, func(i ssa.Instruction) {
+		phi, ok := i.(*ssa.Phi)
+		if !ok || !isBoolType(phi.Type()) {
+			return
+		}
+		var hasConst, hasFact bool
+		for _, e := range phi.Edges {
+			if _, isK := e.(*ssa.Const); isK {
+				hasConst = true
+			} else if fromInstance(e) {
+				hasFact = true
+			}
+		}
+		if !hasConst || !hasFact {
+			return
+		}
+		// is the constant edge chosen by the presence of keywords?
+		bySchema := ""
+		for k, e := range phi.Edges {
+			if _, isK := e.(*ssa.Const); !isK {
+				continue
+			}
+			pred := phi.Block().Preds[k]
+			for _, g := range controlGuards(pred.Instrs[len(pred.Instrs)-1]) {
+				if g.At.Parent() == phi.Parent() && g.At.Block().Dominates(pred) && readsSchema(g.Cond) && !fromInstance(g.Cond) {
+					bySchema = c.pos(g.At)
+				}
+			}
+			if ifi, ok := pred.Instrs[len(pred.Instrs)-1].(*ssa.If); ok && readsSchema(ifi.Cond) && !fromInstance(ifi.Cond) {
+				bySchema = c.pos(ifi)
+			}
+		}
+		if bySchema == "" {
+			return
+		}
+		// does the merged value guard something (a branch), beyond the block it was computed for?
+		guards := false
+		var walk func(v ssa.Value, depth int)
+		walk = func(v ssa.Value, depth int) {
+			if depth == 0 || v.Referrers() == nil {
+				return
+			}
+			for _, r := range *v.Referrers() {
+				switch x := r.(type) {
+				case *ssa.If:
+					guards = true
+				case *ssa.UnOp:
+					walk(x, depth-1)
+				case *ssa.Phi:
+					walk(x, depth-1)
+				case *ssa.BinOp:
+					walk(x, depth-1)
+				}
+			}
+		}
+		walk(phi, 4)
+		if !guards {
+			return
+		}
+		n++
+		c.R.Bad(rule, fmt.Sprintf("%s:conditional-fact#%d", core.FuncName(phi.Parent()), n), c.pos(phi),
+			fmt.Sprintf("a fact about the instance (%s) is computed only when certain keywords are present (test at %s) and is a constant otherwise, and it guards a later branch: e.g. `is a number` known only next to minimum/maximum lets a json.Number be treated as a string by maxLength when no numeric keyword is there, while the float64 decoding of the same document is not", phi.Comment, bySchema))
+	})
+	if n == 0 {
+		c.R.OK(rule, "none", c.P.Pos(m.E.Pos()), "no fact about the instance is computed under a keyword-presence test and used to guard another keyword group")
+	}
+}
